@@ -18,14 +18,14 @@ from __future__ import annotations
 import os, subprocess, sys, shutil, time
 from . import common
 
-GEN_MODULES = ['Node', 'Attacker', 'NodeDelegates', 'Query', 'Graph', 'Apriori', 'Eval']
+GEN_MODULES = ['Node', 'Attacker', 'NodeDelegates', 'Query', 'Graph', 'Apriori', 'Eval', 'Link']
 # modules that depend on the generated code, in dependency order
-CHAIN = ['MalVerif.Py.TieNode', 'MalVerif.Py.TieGraph', 'MalVerif.Py.TieApriori', 'MalVerif.Py.TieEval', 'MalVerif.PropsGen.C01',
+CHAIN = ['MalVerif.Py.TieNode', 'MalVerif.Py.TieGraph', 'MalVerif.Py.TieApriori', 'MalVerif.Py.TieEval', 'MalVerif.Py.TieLink', 'MalVerif.PropsGen.C01',
          'MalVerif.PropsGen.C08', 'MalVerif.PropsGen.C09', 'MalVerif.PropsGen.C11', 'MalVerif.PropsGen.C12',
          'MalVerif.PropsGen.C13']
 # which modules carry the claim of a property (its PropsGen file and what that imports)
 NEEDS = {
-    'C01': ['MalVerif.Py.TieEval', 'MalVerif.PropsGen.C01'],
+    'C01': ['MalVerif.Py.TieEval', 'MalVerif.Py.TieLink', 'MalVerif.PropsGen.C01'],
     'C08': ['MalVerif.Py.TieApriori', 'MalVerif.PropsGen.C08'],
     'C09': ['MalVerif.Py.TieNode', 'MalVerif.Py.TieGraph', 'MalVerif.PropsGen.C09'],
     'C11': ['MalVerif.Py.TieNode', 'MalVerif.PropsGen.C11'],
@@ -34,7 +34,7 @@ NEEDS = {
 }
 # python functions whose translation a property's theorems are about (for the evidence file)
 SOURCES = {
-    'C01': 'attackgraph.py: _process_step_expression (the methods it calls on lang_graph / model are parameters: EvalEnv)',
+    'C01': 'attackgraph.py: _process_step_expression (the methods it calls on lang_graph / model are parameters: EvalEnv) and the linking loop (second loop) of _generate_graph',
     'C08': 'analyzers/apriori.py: propagate_viability_from_node, propagate_necessity_from_node, _has_ttc_distribution, evaluate_viability, evaluate_necessity, evaluate_viability_and_necessity, calculate_viability_and_necessity',
     'C09': 'attackgraph.py: get_node_by_id, get_node_by_full_name, get_attacker_by_id, add_node, remove_node, add_attacker, remove_attacker; attacker.py: compromise, undo_compromise; node.py: full_name',
     'C11': 'attacker.py: compromise, undo_compromise; node.py: is_compromised, is_compromised_by, compromise, undo_compromise',
